@@ -39,46 +39,47 @@ def window_shape(rep: Report, rid: str, prog: Program, qual: str, bucket: Any, w
         bucket = ("param", roles["bucket"])
     paths = engine(prog).paths(fi)
     first = ("sub", bucket, ("const", 0))
-    loops = pops = 0
-    okshape = True
-    why = ""
+    lenb = ("pure", "len", (bucket,), ())
+    okshape, why, n_pop_paths = True, "", 0
     for p in paths:
-        for e in p.events:
+        last = 0
+        pops_here = 0
+        for i, it in enumerate(p.items):
+            if it[0] != "ev":
+                continue
+            e = it[1]
             if e.kind == "store":
                 okshape, why = False, f"store to {show(e.loc)}"
             if e.kind == "call" and not e.pure:
-                if (e.lib() or "").endswith(".popleft") or (isinstance(e.node.ast.func, ast.Attribute) and e.node.ast.func.attr == "popleft"):
-                    if e.recv != bucket:
-                        okshape, why = False, f"popleft on {show(e.recv)}"
-                    pops += 1
-                else:
+                is_pop = isinstance(e.node.ast, ast.Call) and isinstance(e.node.ast.func, ast.Attribute) and e.node.ast.func.attr == "popleft"
+                if not is_pop:
                     okshape, why = False, f"unexpected effect {e.label}"
-        if p.exit[0] == "loop":
-            loops += 1
-            # the iteration that pops must be guarded by: bucket truthy and bucket[0] <= now - window
-            lits = [(a, pol) for a, pol, _ in p.conds]
-            truthy = any(a == bucket and pol for a, pol in lits)
-            bound = False
-            for a, pol in lits:
-                nf = norm_less(a, pol, integer=False) if a[0] == "cmp" and a[1] == "<" else None
-                if nf is not None:
-                    rel, terms, c = nf
-                    td = dict(terms)
-                    # now - window - bucket[0] >= 0
-                    if rel == ">=0" and c == 0 and td == {NOW: 1, window: -1, first: -1}:
-                        bound = True
-            n_pop = sum(1 for e in p.events if e.kind == "call" and isinstance(e.node.ast.func, ast.Attribute) and e.node.ast.func.attr == "popleft")
-            if not (truthy and bound and n_pop == 1):
-                okshape, why = False, f"loop iteration guarded by {[('' if pol else 'not ') + show(a) for a, pol in lits]} with {n_pop} pops; expected `bucket and bucket[0] <= now - window` and one popleft"
-        else:
-            # leaving the loop: either empty or the oldest entry is younger than the window
-            if any(e.kind == "call" and not e.pure for e in p.events):
-                okshape, why = False, "effects on an exit path"
-    rep.instance(rid, f"{qual}|prune-shape", {"function": qual, "paths": len(paths), "loop_paths": loops})
-    if okshape and loops == 1 and pops == 1:
+                    continue
+                if e.recv != bucket:
+                    okshape, why = False, f"popleft on {show(e.recv)}"
+                    continue
+                pops_here += 1
+                seg = p.items[last:i]
+                # this pop is justified by: the oldest entry is expired (bucket[0] <= now - window) ...
+                bound = False
+                for s2 in seg:
+                    if s2[0] == "cond" and s2[1][0] == "cmp" and s2[1][1] == "<":
+                        nf = norm_less(s2[1], s2[2], integer=False)
+                        if nf is not None and nf[0] == ">=0" and nf[2] == 0 and dict(nf[1]) == {NOW: 1, window: -1, first: -1}:
+                            bound = True
+                # ... and the container is not empty: tested for truth, or the loop runs at most len(bucket) times
+                nonempty = any(s2[0] == "cond" and ((s2[1] == bucket and s2[2]) or (s2[1] == ("cmp", "<", ("const", 0), lenb) and s2[2])) for s2 in seg)
+                nonempty = nonempty or any(s2[0] == "ev" and s2[1].kind == "iter" and s2[1].value != "zero" and s2[1].recv == ("pure", "range", (lenb,), ()) for s2 in p.items[:i])
+                if not (bound and nonempty):
+                    guards = [("" if s2[2] else "not ") + show(s2[1]) for s2 in seg if s2[0] == "cond"]
+                    okshape, why = False, f"a popleft is guarded by {guards}; expected `bucket` non-empty and `bucket[0] <= now - window`"
+                last = i + 1
+        n_pop_paths += 1 if pops_here else 0
+    rep.instance(rid, f"{qual}|prune-shape", {"function": qual, "paths": len(paths), "paths_that_pop": n_pop_paths})
+    if okshape and n_pop_paths >= 1:
         rep.ok(rid)
     else:
-        rep.fail(rid, f"{qual.split(':')[-1]}|prune-shape", f"{qual}: pruning is not `while bucket and bucket[0] <= now - window: bucket.popleft()` ({why or f'loops={loops}, pops={pops}'})", where=fi.where(), function=qual)
+        rep.fail(rid, f"{qual.split(':')[-1]}|prune-shape", f"{qual}: pruning is not `while bucket and bucket[0] <= now - window: bucket.popleft()` ({why or 'no path pops'})", where=fi.where(), function=qual)
     return True
 
 
@@ -191,17 +192,7 @@ def check_note_failure(rep: Report, prog: Program) -> None:
                         rep.ok("R6.2")
                     else:
                         rep.fail("R6.2", f"container-use|{fn.qual}|{n.attr}", f"{fn.qual} touches `{n.attr}`; the failure windows are owned by _note_failure/_clear_failures", where=fn.where(n), function=fn.qual)
-    # trip_on includes every class that has a class threshold
-    init = prog.func(f"{CB}.__init__")
-    ok_update = False
-    for n in prog._own_nodes(init.node):
-        if isinstance(n, ast.Call) and isinstance(n.func, ast.Attribute) and n.func.attr == "update" and ast.unparse(n.func.value) == "trip_on" and "class_thresholds" in ast.unparse(n.args[0] if n.args else n):
-            ok_update = True
-    rep.instance("R6.2", "__init__|trip_on-superset")
-    if ok_update:
-        rep.ok("R6.2")
-    else:
-        rep.fail("R6.2", "__init__|trip_on-superset", "CircuitBreaker.__init__ no longer adds the class_thresholds keys to trip_on", where=init.where(), function=init.qual)
+    # (that trip_on includes every class with a class threshold is decided semantically by R6.4)
     rep.floor("R6.2", 12)
 
 
@@ -256,3 +247,85 @@ def run(rep: Report, prog: Program, tier: str) -> None:
     rep.floor("R6.1", 18)
     check_note_failure(rep, prog)
     check_clock(rep, prog)
+    check_constructor(rep, prog)
+
+
+def check_constructor(rep: Report, prog: Program) -> None:
+    """R6.4 - what counts: the configuration the rows of R6.1 read is the configuration the caller gave."""
+    rep.rule("R6.4", "constructor: the counted classes are exactly the caller's trip_on (an explicitly empty set stays empty; {TRANSIENT, SERVER_ERROR} only for None) plus every class with a class threshold; thresholds, window and recovery timeout are stored unchanged; the breaker starts CLOSED with empty windows - decided by evaluating the stored terms for trip_on in {None, empty, {AUTH}}")
+    from ..paths import CannotEval, evaluate, truth
+
+    fi = prog.func(f"{CB}.__init__")
+    rep.analysed(fi.qual)
+    paths = [p for p in engine(prog).paths(fi) if p.exit[0] == "return"]
+    if not paths:
+        raise AnalysisError(f"{fi.qual}: no returning path")
+    TP = ("param", "trip_on")
+    cases = {"None": None, "empty": frozenset(), "{AUTH}": frozenset({"AUTH"})}
+    want = {"None": frozenset({"TRANSIENT", "SERVER_ERROR"}), "empty": frozenset(), "{AUTH}": frozenset({"AUTH"})}
+    decided = {k: 0 for k in cases}
+    for p in paths:
+        st = {e.loc[2]: e.value for e in p.stores() if e.loc[0] == "attr" and e.loc[1] == SELF}
+        ups = [e for e in p.calls(pure=False) if _is_method(e, "update")]
+        for cname, cval in cases.items():
+
+            def leaf(t: Any, cval: Any = cval) -> Any:
+                if t == TP:
+                    return cval
+                if t[0] == "enum":
+                    return t[2]
+                if t[0] == "set" or (t[0] == "tuple"):
+                    return frozenset(evaluate(x, leaf) for x in t[1])
+                if t[0] == "pure" and t[1] in ("set", "frozenset") and len(t[2]) == 1:
+                    v = evaluate(t[2][0], leaf)
+                    if v is None:
+                        raise CannotEval()
+                    return frozenset(v)
+                if t[0] == "pure" and t[1] in ("set", "frozenset") and not t[2]:
+                    return frozenset()
+                raise CannotEval()
+
+            feasible = True
+            for a, pol, _ in p.conds:
+                try:
+                    if (a == TP and bool(cval) != pol) or (a != TP and contains_term(a, TP) and truth(a, leaf) != pol):
+                        feasible = False
+                        break
+                except CannotEval:
+                    continue
+            if not feasible:
+                continue
+            decided[cname] += 1
+            rep.instance("R6.4", f"__init__|trip_on={cname}")
+            problem = None
+            try:
+                got = evaluate(st["_trip_on"], leaf) if "_trip_on" in st else None
+            except CannotEval:
+                got = None
+            if got is not None and not isinstance(got, frozenset):
+                got = None
+            if got is not None:
+                got = frozenset(x[2] if isinstance(x, tuple) and x and x[0] == "enum" else x for x in got)
+            if got != want[cname]:
+                problem = f"with trip_on={cname} the counted classes start as {sorted(got) if got is not None else show(st.get('_trip_on'))}, expected {sorted(want[cname])}"
+            elif not any(e.recv == st["_trip_on"] and e.args and "class_thresholds" in show(e.args[0]) and ".keys" in show(e.args[0]) for e in ups):
+                problem = "the classes that have a class threshold are not added to the counted classes (trip_on.update(class_thresholds.keys()))"
+            else:
+                for k, src in (("_failure_threshold", "failure_threshold"), ("_window_s", "window_s"), ("_recovery_timeout_s", "recovery_timeout_s"), ("_clock", "clock")):
+                    if st.get(k) != ("param", src):
+                        problem = f"`{k}` is stored as {show(st.get(k))}, not the caller's {src}"
+                if st.get("_state") != ("enum", "CircuitState", "CLOSED") or st.get("_opened_at") != ("const", None) or st.get("_probe_in_flight") != ("const", False):
+                    problem = problem or "the breaker does not start CLOSED / without an open timestamp / without a probe"
+            if problem:
+                rep.fail("R6.4", f"__init__|trip_on={cname}|{problem[:40]}", f"CircuitBreaker.__init__: {problem}", where=fi.where(), function=fi.qual, path=p.describe())
+            else:
+                rep.ok("R6.4")
+    if not all(decided.values()):
+        raise AnalysisError(f"R6.4: no constructor path decided for trip_on in {[k for k, v in decided.items() if not v]}")
+    rep.floor("R6.4", 3)
+
+
+def contains_term(t: Any, sub: Any) -> bool:
+    from ..paths import contains
+
+    return contains(t, sub)
